@@ -149,8 +149,54 @@ fn crafted(ctx: &mut Context, rng: &mut SmallRng, k: u64) -> TransitionSystem {
     sys
 }
 
+/// systematic state-shape family: a driver state s0 (counter or input-driven) and a state s1 whose init / next take
+/// every combination of kinds the encoder treats differently (no init, literal, a bare other state, an expression
+/// over another state; no next, itself, the very node that is its init, a bare other state, a bare input, an
+/// expression).  The bad states compare each state with a constant, so a wrong trajectory of either state changes
+/// the verdict or the step at which it is reached.  k enumerates the combinations (24 per width class).
+fn shaped(ctx: &mut Context, rng: &mut SmallRng, k: u64, for_pdr: bool) -> TransitionSystem {
+    let mut sys = TransitionSystem::new(format!("shaped{k}"));
+    let c = k / 3;
+    let (ik, nk) = (c % 4, (c / 4) % 6);
+    let w = if (c / 24) % 2 == 0 { 2u32 } else { 1 };
+    let s0 = ctx.bv_symbol("s0", w);
+    let s1 = ctx.bv_symbol("s1", w);
+    let inp = ctx.bv_symbol("in", w);
+    sys.add_input(ctx, inp);
+    let one = ctx.one(w);
+    let s0_init = { let v = rnd_bv(rng, w); ctx.bv_lit(&v) };
+    let s0_next = match rng.random_range(0..3) { 0 => ctx.add(s0, one), 1 => ctx.xor(s0, inp), _ => { let a = ctx.add(s0, one); let e = ctx.equal(inp, s0); ctx.ite(e, s0, a) } };
+    sys.add_state(ctx, State { symbol: s0, init: Some(s0_init), next: Some(s0_next) });
+    let init = match ik {
+        0 => None,
+        1 => { let v = rnd_bv(rng, w); Some(ctx.bv_lit(&v)) }
+        2 => Some(s0),
+        // (expressions the driver's next function never contains: a shared node would run into KF-C04-init-order)
+        _ => Some(if rng.random_bool(0.5) { let v = rnd_bv(rng, w); let l = ctx.bv_lit(&v); ctx.sub(l, s0) } else { ctx.not(s0) }),
+    };
+    let next = match nk {
+        0 if !for_pdr => None,
+        0 | 1 => Some(s1),
+        2 => init.or(Some(s1)),
+        3 => Some(s0),
+        4 => Some(inp),
+        _ => Some(match rng.random_range(0..3) { 0 => ctx.add(s1, s0), 1 => { let e = ctx.equal(s0, inp); ctx.ite(e, s1, s0) } _ => ctx.xor(s1, inp) }),
+    };
+    sys.add_state(ctx, State { symbol: s1, init, next });
+    let c1 = { let v = rnd_bv(rng, w); ctx.bv_lit(&v) };
+    let b1 = ctx.equal(s1, c1);
+    match rng.random_range(0..3) {
+        0 => sys.bad_states.push(b1),
+        1 => { let c0 = { let v = rnd_bv(rng, w); ctx.bv_lit(&v) }; let b0 = ctx.equal(s0, c0); let b = ctx.and(b0, b1); sys.bad_states.push(b); }
+        _ => { let ne = ctx.equal(s0, s1); let nn = ctx.not(ne); let b = ctx.and(nn, b1); sys.bad_states.push(b); sys.bad_states.push(b1); }
+    }
+    if rng.random_range(0..4) == 0 { let v = rnd_bv(rng, w); let l = ctx.bv_lit(&v); let e = ctx.equal(inp, l); let cst = ctx.not(e); sys.constraints.push(cst); }
+    sys
+}
+
 fn gen_mc_sys(ctx: &mut Context, rng: &mut SmallRng, k: u64, for_pdr: bool) -> TransitionSystem {
     if k % 3 == 2 { return crafted(ctx, rng, k); }
+    if k % 3 == 1 { return shaped(ctx, rng, k, for_pdr); }
     let mut cfg = SysCfg::tiny();
     cfg.max_bits = 6;
     cfg.max_inputs = 2; cfg.max_input_w = 2;
@@ -186,7 +232,7 @@ fn configs(kind: &str, rng: &mut SmallRng, kmax: u64, thorough: bool) -> Vec<Run
 }
 
 pub fn run(args: &[String]) {
-    if flag(args, "--worker").is_none() { return supervise(args, "mc", flag_u(args, "--stall", 25)); }
+    if flag(args, "--worker").is_none() { return supervise(args, "mc", flag_u(args, "--stall", 40)); }
     let out_path = flag(args, "--out").expect("--out").to_string();
     let prog = format!("{out_path}.progress");
     let start = flag_u(args, "--start", 0);
@@ -295,16 +341,26 @@ pub fn supervise(args: &[String], cmd: &str, stall_secs: u64) {
     let mut incidents = 0;
     loop {
         let _ = std::fs::write(&prog, format!("{start}"));
+        // liveness: the work item advances, or the solver proxy keeps answering (it touches the heartbeat file after every
+        // answer).  A run that is merely slow on a loaded machine is not a stuck run; one work item may still not take
+        // longer than 20 stall periods in total.
+        let hb = format!("{out_path}.heartbeat");
+        let _ = std::fs::write(&hb, "");
         let mut child = std::process::Command::new(&exe).arg(cmd).arg("--worker").arg("1").arg("--start").arg(start.to_string()).args(args)
-            .stderr(std::process::Stdio::null()).spawn().expect("spawn worker");
-        let mut last = (start, std::time::Instant::now());
+            .env("PV_HEARTBEAT", &hb).stderr(std::process::Stdio::null()).spawn().expect("spawn worker");
+        let beat = |p: &str| std::fs::metadata(p).and_then(|m| m.modified()).ok();
+        let mut last = (start, beat(&hb), std::time::Instant::now());
+        let mut item_since = std::time::Instant::now();
         let status = loop {
             if let Some(st) = child.try_wait().unwrap() { break Some(st); }
             std::thread::sleep(std::time::Duration::from_millis(200));
             let cur: u64 = std::fs::read_to_string(&prog).ok().and_then(|s| s.trim().parse().ok()).unwrap_or(last.0);
-            if cur != last.0 { last = (cur, std::time::Instant::now()); }
-            if last.1.elapsed().as_secs() > stall_secs { let _ = child.kill(); let _ = child.wait(); break None; }
+            let b = beat(&hb);
+            if cur != last.0 { item_since = std::time::Instant::now(); }
+            if cur != last.0 || b != last.1 { last = (cur, b, std::time::Instant::now()); }
+            if last.2.elapsed().as_secs() > stall_secs || item_since.elapsed().as_secs() > 20 * stall_secs { let _ = child.kill(); let _ = child.wait(); break None; }
         };
+        let _ = std::fs::remove_file(&hb);
         let done: u64 = std::fs::read_to_string(&prog).ok().and_then(|s| s.trim().parse().ok()).unwrap_or(start);
         match status {
             Some(st) if st.success() => break,
